@@ -74,6 +74,10 @@ def conn_callbacks(rng):
             elif r < 0.7:
                 ops.append(["unreg", cb])
                 ops.append(["reg", cb])
+            elif r < 0.85:
+                # another thread (un)registers at the very moment this delivery round is in progress
+                ops.append(["async", [rng.choice([["reg", rng.choice(pool)], ["unreg", rng.choice(pool + [3])]]) for _ in range(rng.randint(1, 2))]])
+                ops.append(rng.choice([["reg", rng.choice(pool)], ["unreg", rng.choice(pool)]]))
             per_inv.append(ops)
         scripts[str(cb)] = per_inv
     t0 = burst_ops(rng, 0, rng.randint(3, 12), [0, 0.02, 0.1, 0.15, 0.3], kinds=("put",))
@@ -82,7 +86,15 @@ def conn_callbacks(rng):
         t1.append(["sleep", rng.choice([0.01, 0.05, 0.13, 0.25, 0.31])])
         t1.append(rng.choice([["reg", rng.choice(pool)], ["unreg", rng.choice(pool + [3])], ["reg", 3]]))
     threads = [t0 + [["join"], ["sleep", 2.0]], t1]
-    return {"kind": "conn", "device": device(rng), "log_size": 0, "threads": threads, "pre_register": pre, "callbacks": scripts}
+    spec = {"kind": "conn", "device": device(rng), "log_size": 0, "threads": threads, "pre_register": pre, "callbacks": scripts}
+    if rng.random() < 0.5:
+        # targeted line-level preemption inside the registration / delivery functions (races on the callback collection itself)
+        spec["hot"] = "register_message_callback|_call_registered_message_callbacks"
+        spec["hot_budget"] = rng.choice([4, 10, 20])
+        for op in t1:
+            if op[0] == "sleep":
+                op[1] = rng.choice([0.02, 0.1, 0.15, 0.3])          # keep the second thread busy while deliveries run
+    return spec
 
 
 def conn_lifecycle(rng):
@@ -321,4 +333,31 @@ def conn_slow_writes(rng):
     spec = conn_traffic(rng, max_threads=2, max_cmds=12, long_idle=rng.random() < 0.5)
     spec["slow_writes"] = {str(rng.randint(1, 12)): rng.choice([0.05, 0.12, 0.25, 0.6]) for _ in range(rng.randint(1, 3))}
     spec["threads"][0].insert(-1, ["sleep", 2.0])        # room for the blocked time before the final snapshot
+    return spec
+
+
+def conn_busy_callback(rng):
+    """C12 flavour: a message callback that is still running (for seconds) when the keep-alive timer expires"""
+    t_unsol = rng.choice([29.2, 29.8, 30.0, 30.05, 59.9, 60.2])
+    dev = {"type": "scripted", "latency": rng.choice([0.02, 0.06, 0.15]), "unsolicited": [[t_unsol, "@MAIN:VOL=-%d.5" % rng.randint(10, 60)]]}
+    ops = [["sleep", rng.choice([0.3, 1.0])], ["put", "MAIN", "F0", "1"], ["sleep", rng.choice([62, 65, 95])]]
+    k = rng.randint(1, 3)
+    scripts = {"1": [[] for _ in range(k)] + [[["sleep", rng.choice([1.5, 2.8, 4.0])]]] * 3}
+    return {"kind": "conn", "device": dev, "log_size": 0, "threads": [ops], "pre_register": [1], "callbacks": scripts}
+
+
+def conn_port_dies(rng):
+    """C15 flavour judged by the monitor only: the transport ends without raising (the port object reports closed)"""
+    spec = conn_lifecycle(rng)
+    for th in spec["threads"]:
+        for op in th:
+            if op[0] in ("drop", "close"):
+                op[0] = "sleep"
+                op.append(0.0)
+    spec.pop("disconnect_ops", None)
+    spec["callbacks"] = {}
+    spec["device"].pop("eof_after_bytes", None)
+    spec.pop("write_fault_after", None)
+    th = spec["threads"][1]
+    th.insert(rng.randrange(len(th) + 1), ["port_dies"])
     return spec
